@@ -18,7 +18,7 @@ struct Case {
     text: String,
 }
 
-const TYPES: &[&str] = &["Tick", "Order", "StockTick", "A", "Sensor_1", "BATCHED", "B", "ÉvT", "x", "BATCH2"];
+const TYPES: &[&str] = &["Tick", "Order", "StockTick", "A", "Sensor_1", "Trade", "B", "ÉvT", "x", "Login", "Tick", "Order", "E2", "T_x", "Reading", "BATCHED"];
 const FIELDS: &[&str] = &["id", "price", "symbol", "v", "ts", "user_id", "event_type", "data", "clé", "a b"];
 const STRS: &[&str] = &[
     "\"AAPL\"", "\"\"", "\"a, b\"", "\"{x}\"", "\"tab\\t\"", "\"q\\\"q\"", "\"back\\\\\"", "\"@5s\"", "\"# no\"", "\"// no\"", "\"semi;\"", "'single'", "'it\\'s'", "\"é日本😀\"", "\"unknown\\q\"", "\"]\"", "\"nl\\n\"", "\"}\"", "\":\"",
@@ -65,22 +65,22 @@ fn json_value(t: &mut Tape, depth: usize) -> String {
 
 fn event_text(t: &mut Tape) -> (String, &'static str) {
     let ty = t.of(TYPES);
-    match t.below(10) {
-        0..=4 => {
+    match t.below(30) {
+        0..=14 => {
             let n = t.below(5);
             let fields: Vec<String> = (0..n).map(|_| format!("{}{}{}", t.of(FIELDS), t.of(&[": ", ":", " : "]), value(t, 2))).collect();
             let (o, c) = t.of(&[(" { ", " }"), ("{", "}"), (" {", "}"), ("  {  ", "  }")]);
             (format!("{}{}{}{}", ty, o, fields.join(t.of(&[", ", ",", " , "])), c), "plain")
         }
-        5 | 6 => {
+        15..=20 => {
             let n = t.below(4);
             let vals: Vec<String> = (0..n).map(|_| value(t, 2)).collect();
             (format!("{}({})", ty, vals.join(", ")), "positional")
         }
-        7 | 8 => {
+        21..=28 => {
             let n = t.below(4);
             let fields: Vec<String> = (0..n).map(|_| format!("\"{}\": {}", t.of(FIELDS), json_value(t, 2))).collect();
-            match t.below(8) {
+            match t.below(24) {
                 0 => (format!("{{\"data\": {{{}}}}}", fields.join(", ")), "jsonl_no_type"),
                 1 => (format!("{{\"event_type\": \"{}\", \"data\": {{{}}}", ty, fields.join(", ")), "jsonl_broken"),
                 2 => (format!("{{\"event_type\": \"{}\"}}", ty), "jsonl"),
@@ -110,8 +110,8 @@ fn line(t: &mut Tape, labels: &mut Vec<&'static str>) -> String {
             t.of(&["# comment", "// comment", "#", "# @5s Tick { id: 1 }", "// BATCH 5", "#BATCH x"]).to_string()
         }
         2 | 3 => {
-            let arg = match t.below(12) {
-                0..=6 => format!("{}", t.below(5000)),
+            let arg = match t.below(36) {
+                0..=6 | 11..=35 => format!("{}", t.below(5000)),
                 7 => "18446744073709551615".to_string(),
                 8 => {
                     labels.push("batch_invalid");
@@ -125,9 +125,9 @@ fn line(t: &mut Tape, labels: &mut Vec<&'static str>) -> String {
             format!("BATCH{}{}", if arg.is_empty() { "" } else { " " }, arg)
         }
         4..=8 => {
-            let n = t.of(&["0", "1", "5", "10", "100", "007", "18446744073709551615", "18446744073709552"]);
+            let n = t.of(&["0", "1", "5", "10", "100", "007", "2", "30", "250", "1000", "60", "3", "15", "99", "18446744073709551", "18446744073709551615", "18446744073709552"]);
             let unit = t.of(&["s", "ms", "m", "", "s", "ms"]);
-            let bad = t.below(14);
+            let bad = t.below(40);
             let prefix = match bad {
                 0 => {
                     labels.push("timing_invalid");
@@ -139,10 +139,10 @@ fn line(t: &mut Tape, labels: &mut Vec<&'static str>) -> String {
             let (ev, kind) = event_text(t);
             labels.push("timing_prefix");
             labels.push(kind);
-            match t.below(12) {
+            match t.below(40) {
                 0 => prefix, // prefix alone
                 1 => format!("{}{}", prefix, ev),
-                2 => format!("{}\t{}", prefix, ev),
+                2 | 5 | 6 => format!("{}\t{}", prefix, ev),
                 3 => format!("{} # c", prefix),
                 4 => format!("{} BATCH 5", prefix),
                 _ => format!("{} {}", prefix, ev),
@@ -154,7 +154,8 @@ fn line(t: &mut Tape, labels: &mut Vec<&'static str>) -> String {
             ev
         }
     };
-    let semi = if t.chance(1, 5) {
+    let evt_line = matches!(labels.last(), Some(&"plain") | Some(&"positional"));
+    let semi = if t.chance(1, if evt_line { 4 } else { 60 }) {
         labels.push("semicolon");
         t.of(&[";", ";;", " ;"])
     } else {
@@ -319,7 +320,12 @@ fn judge(c: &Case) -> Outcome {
             }
             Outcome::pass().nontrivial((has_timing || has_batch) && x.len() >= 2).class("both_accept").class_if(x.is_empty(), "no_events").class_if(x.len() >= 2, "events>=2")
         }
-        (Err(_), Err(_)) => Outcome::pass().class("both_reject"),
+        (Err(ea), Err(_)) => {
+            if std::env::var("VERIF_C46_DEBUG").is_ok() {
+                eprintln!("REJECT {}", ea);
+            }
+            Outcome::pass().class("both_reject")
+        }
         (Ok(x), Err(e)) => {
             return Outcome::fail(format!("only-streaming-rejects:{}", which), format!("preload accepts ({} events), streaming rejects: {}; file={:?}", x.len(), e, vh_common::truncate(text, 600)));
         }
@@ -344,6 +350,6 @@ fn main() {
     check.extra("corpus_evt_files", serde_json::json!(corpus.len()));
     let fixed: Vec<Case> = corpus.iter().map(|(p, t)| Case { origin: format!("corpus:{}+unmutated", p), text: t.clone() }).collect();
     check.enumerate("corpus_unmutated", fixed, judge);
-    check.explore("files", strat, 10_000, 200_000, judge);
+    check.explore("files", strat, 60_000, 1_000_000, judge);
     check.finish();
 }
